@@ -169,7 +169,7 @@ Definition post_diag (st : state) (h w : nat) (l : list expr) : state * option p
       post_each (diag_cell (Z.of_nat h) (Z.of_nat w) ranks l) st1 (cells h w)
   end.
 
-(* BoolArray1D.__invert__ *)
+(* BoolArray1D.__invert__ / BoolArray2D.__invert__ on the data list *)
 Definition invert1 (l : list expr) : list expr := map b_not l.
 
 (* active_vertices_not_adjacent_and_not_segmenting(solver, is_active, graph=None);
@@ -180,7 +180,14 @@ Definition post_not_segmenting (cfg_prim : bool) (st : state) (a : avc_arg) (g :
   | None, AArr2 h w l =>
       match post_not_adjacent st a None with
       | (st1, Some e) => (st1, Some e)
-      | (st1, None) => post_diag st1 h w l
+      | (st1, None) =>
+          (* if height == 1 or width == 1: active_vertices_connected(solver, ~is_active); return *)
+          if Nat.eqb h 1 || Nat.eqb w 1 then
+            match active_vertices_connected cfg_prim st1 (AArr2 h w (invert1 l)) None false None with
+            | Ok st2 => (st2, None)
+            | Err e => (st1, Some e)
+            end
+          else post_diag st1 h w l
       end
   | None, _ => (st, Some TypeError)
   | Some _, AArr2 _ _ _ => (st, Some TypeError)
@@ -198,9 +205,6 @@ Definition post_not_segmenting (cfg_prim : bool) (st : state) (a : avc_arg) (g :
           end
       end
   end.
-
-(* the constraints a call added *)
-Definition new_cons (st st' : state) : list expr := skipn (length (cons st)) (cons st').
 
 (* ------------------------------------------------------------------------ *)
 (* level S: specifications                                                   *)
@@ -248,52 +252,66 @@ Definition cert_diag (h w : nat) (act : nat -> bool) (rank : nat -> Z) : bool :=
 Definition diag_ranks_in_range (h w : nat) (rank : nat -> Z) : Prop :=
   forall v, (v < h * w)%nat -> (0 <= rank v <= (Z.of_nat (h * w) - 1) / 2)%Z.
 
-(* walks through active cells along diagonal steps, optionally never using
-   the step between the two cells of [avoid] (in either direction) *)
+(* walks through active vertices of a graph given by neighbour lists [nb] on
+   the vertices 0..n-1, optionally never using the step between the two
+   vertices of [avoid] (in either direction) *)
 Definition same_pair (a b c d : nat) : Prop := (a = c /\ b = d) \/ (a = d /\ b = c).
-Inductive dwalk (h w : nat) (act : nat -> bool) (avoid : option (nat * nat)) : nat -> nat -> Prop :=
-  | dwalk_refl v : (v < h * w)%nat -> act v = true -> dwalk h w act avoid v v
-  | dwalk_step u v x : dwalk h w act avoid u v -> In x (diag_nbrs h w v) -> act x = true ->
+Inductive gwalk (n : nat) (nb : nat -> list nat) (act : nat -> bool) (avoid : option (nat * nat))
+    : nat -> nat -> Prop :=
+  | gwalk_refl v : (v < n)%nat -> act v = true -> gwalk n nb act avoid v v
+  | gwalk_step u v x : gwalk n nb act avoid u v -> In x (nb v) -> act x = true ->
       (forall a b, avoid = Some (a, b) -> ~ same_pair v x a b) ->
-      dwalk h w act avoid u x.
+      gwalk n nb act avoid u x.
 
-(* the diagonal-adjacency graph on the active cells is a forest (every
-   diagonal pair of active cells is a bridge: without that step its two cells
-   are not joined), and a tree contains at most one border cell *)
+(* the graph induced on the active vertices is a forest: every pair of
+   adjacent active vertices is a bridge (without that step its two ends are not
+   joined); and no two distinct pinned vertices are joined *)
+Definition g_forest (n : nat) (nb : nat -> list nat) (act : nat -> bool) : Prop :=
+  forall a b, (a < n)%nat -> act a = true -> act b = true -> In b (nb a) ->
+              ~ gwalk n nb act (Some (a, b)) a b.
+Definition g_one_pin (n : nat) (nb : nat -> list nat) (act pin : nat -> bool) : Prop :=
+  forall u v, pin u = true -> pin v = true -> gwalk n nb act None u v -> u = v.
+
+(* the diagonal-adjacency graph on the active cells is a forest, and a tree
+   contains at most one border cell *)
+Definition dwalk (h w : nat) := gwalk (h * w) (diag_nbrs h w).
 Definition diag_forest (h w : nat) (act : nat -> bool) : Prop :=
-  forall a b, (a < h * w)%nat -> act a = true -> act b = true -> In b (diag_nbrs h w a) ->
-              ~ dwalk h w act (Some (a, b)) a b.
+  g_forest (h * w) (diag_nbrs h w) act.
 Definition diag_one_border (h w : nat) (act : nat -> bool) : Prop :=
-  forall u v, on_border h w u = true -> on_border h w v = true ->
-              dwalk h w act None u v -> u = v.
+  g_one_pin (h * w) (diag_nbrs h w) act (on_border h w).
 Definition spec_diag (h w : nat) (act : nat -> bool) : Prop :=
   diag_forest h w act /\ diag_one_border h w act.
 
-(* ---- executable rank construction (used by the completeness proof and as
-   the decision procedure for [spec_diag]): start from the active border
-   cells, then repeatedly take the least unlisted active cell that touches the
-   list diagonally, or else the least unlisted active cell; finally the
-   inactive cells.  The rank of a cell is the number of cells of its own
-   colour class ((y + x) mod 2) listed before it. *)
-Definition touches (h w : nat) (acc : list nat) (v : nat) : bool :=
-  existsb (fun u => mem u acc) (diag_nbrs h w v).
-Definition order_pick (h w : nat) (act : nat -> bool) (acc : list nat) : option nat :=
-  match find (fun v => act v && negb (mem v acc) && touches h w acc v) (seq 0 (h * w)) with
+(* ---- executable order construction (used by the completeness proof and as
+   the decision procedure for [spec_diag]): start from the active pinned
+   vertices, then repeatedly take the least unlisted active vertex that touches
+   the list, or else the least unlisted active vertex; finally the inactive
+   vertices. *)
+Definition g_touches (nb : nat -> list nat) (acc : list nat) (v : nat) : bool :=
+  existsb (fun u => mem u acc) (nb v).
+Definition g_pick (n : nat) (nb : nat -> list nat) (act : nat -> bool) (acc : list nat) : option nat :=
+  match find (fun v => act v && negb (mem v acc) && g_touches nb acc v) (seq 0 n) with
   | Some v => Some v
-  | None => find (fun v => act v && negb (mem v acc)) (seq 0 (h * w))
+  | None => find (fun v => act v && negb (mem v acc)) (seq 0 n)
   end.
-Fixpoint order_grow (h w : nat) (act : nat -> bool) (fuel : nat) (acc : list nat) : list nat :=
+Fixpoint g_grow (n : nat) (nb : nat -> list nat) (act : nat -> bool) (fuel : nat) (acc : list nat)
+    : list nat :=
   match fuel with
   | O => acc
-  | S f => match order_pick h w act acc with
-           | Some v => order_grow h w act f (acc ++ [v])
+  | S f => match g_pick n nb act acc with
+           | Some v => g_grow n nb act f (acc ++ [v])
            | None => acc
            end
   end.
-Definition diag_order (h w : nat) (act : nat -> bool) : list nat :=
-  let acc0 := filter (fun v => act v && on_border h w v) (seq 0 (h * w)) in
-  order_grow h w act (h * w) acc0 ++ filter (fun v => negb (act v)) (seq 0 (h * w)).
+Definition g_order (n : nat) (nb : nat -> list nat) (act pin : nat -> bool) : list nat :=
+  g_grow n nb act n (filter (fun v => act v && pin v) (seq 0 n))
+  ++ filter (fun v => negb (act v)) (seq 0 n).
 
+Definition diag_order (h w : nat) (act : nat -> bool) : list nat :=
+  g_order (h * w) (diag_nbrs h w) act (on_border h w).
+
+(* The rank of a cell is the number of cells of its own colour class
+   ((y + x) mod 2; diagonal neighbours share it) listed before it. *)
 Definition colour (w v : nat) : bool := Nat.even (cell_y w v + cell_x w v).
 Fixpoint rank_in (w : nat) (l : list nat) (v : nat) : nat :=
   match l with
@@ -311,7 +329,7 @@ Definition spec_diag_b (h w : nat) (act : nat -> bool) : bool :=
    separation theorem): on an independent pattern the diagonal forest
    condition says exactly that the inactive cells stay connected *)
 Definition diag_equiv_statement : Prop :=
-  forall h w act, independent (grid_graph h w) act ->
+  forall h w act, (2 <= h)%nat -> (2 <= w)%nat -> independent (grid_graph h w) act ->
     (spec_diag h w act <-> connected (grid_graph h w) (inactive act)).
 
 (* enumeration used by the bounded version: all patterns on n cells as bit lists *)
@@ -328,7 +346,9 @@ Definition diag_equiv_on (h w : nat) : bool :=
                    (Bool.eqb (spec_diag_b h w act) (connected_b (grid_graph h w) (inactive act))))
           (all_patterns (h * w)).
 
-(* all shapes (h, w) with 1 <= h, 1 <= w, h * w <= n *)
+(* all shapes (h, w) with 2 <= h, 2 <= w, h * w <= n (single rows / columns do
+   not use the diagonal encoding, and the equivalence is false there: 010 on
+   1 x 3 has no diagonal pair at all, yet the middle cell separates) *)
 Definition shapes_upto (n : nat) : list (nat * nat) :=
   flat_map (fun h => flat_map (fun w => if Nat.leb (h * w) n then [(h, w)] else [])
-                              (seq 1 n)) (seq 1 n).
+                              (seq 2 n)) (seq 2 n).
